@@ -1,6 +1,7 @@
 mod bench;
 mod common;
 mod pool;
+mod stats;
 
 use common::{Out, RunStats};
 use serde_json::json;
@@ -37,6 +38,7 @@ fn main() {
                 match sc["kind"].as_str().unwrap_or("") {
                     "pool" => common::run_scenario(&sc, &mut out, &mut stats, pool::body),
                     "bench" => common::run_scenario(&sc, &mut out, &mut stats, bench::body),
+                    "stats" => stats::run(&sc, &mut out),
                     other => {
                         eprintln!("unknown scenario kind {other:?}");
                         std::process::exit(2);
